@@ -114,16 +114,17 @@ class Anchors:
                 if c and strip_generics(c['path']).endswith(suffix):
                     return True
             return False
-        metas = self._methods_of('Meta')
-        cs = self._unique([f for f in metas if calls(f, 'Hasher::finish')], 'hash_self')
-        self._set('checksum-role', cs, 'Meta method calling Hasher::finish')
-        self._set('valid-role', self._unique([f for f in metas if cs in cg.get(f, ()) and short_ty(f.j['sig']['output'].get('s', '')) == 'bool'], 'valid'),
-                  'Meta method returning bool that calls the checksum-role')
-        olds = self._methods_of('OldMeta')
-        ocs = self._unique([f for f in olds if calls(f, 'finalize') or calls(f, 'Digest::finalize')], 'hash_self')
-        self._set('old-checksum-role', ocs, 'OldMeta method calling Digest::finalize')
-        self._set('old-valid-role', self._unique([f for f in olds if ocs in cg.get(f, ()) and short_ty(f.j['sig']['output'].get('s', '')) == 'bool'], 'valid'))
-        self._set('old-bytes-role', self._unique([f for f in olds if ocs is not None and f in cg.get(ocs, ())], 'bytes'))
+        # ---- checksum / validity roles (both header formats): the validity role is the method returning bool; the checksum role
+        #      is the non-bool method it calls; the bytes role (legacy) is what the checksum role calls
+        for adt, pre in (('Meta', ''), ('OldMeta', 'old-')):
+            ms = self._methods_of(adt)
+            valids = [f for f in ms if f.locals[0]['ty'] == 'bool' and any(g in ms and g.locals[0]['ty'] != 'bool' for g in cg.get(f, ()))]
+            vr = self._unique(valids, 'valid')
+            self._set(pre + 'valid-role', vr, '%s method returning bool that calls another %s method (the checksum)' % (adt, adt))
+            csr = self._unique([g for g in (cg.get(vr, ()) if vr else ()) if g in ms and g.locals[0]['ty'] != 'bool'], 'hash_self')
+            self._set(pre + 'checksum-role', csr, '%s method called by the validity role' % adt)
+            if adt == 'OldMeta':
+                self._set('old-bytes-role', self._unique([g for g in (cg.get(csr, ()) if csr else ()) if g in ms], 'bytes'), 'OldMeta method called by the legacy checksum role')
         # ---- map-view: the Pages method producing &Page ; overlay-lookup: InnerBucket method returning PageNode
         pages = self._methods_of('Pages')
         self._set('map-view', self._unique([f for f in pages if 'page::Page' in f.j['sig']['output'].get('s', '') or
